@@ -29,7 +29,7 @@ ASSUMPTIONS = [
     "a delegation issued from inside a tied rank is unspecified",
 ]
 REPORT_COUNTERS = ["programs", "calls", "delegations", "chains_len3", "chains_end_amb", "chains_end_none",
-                   "fresh_call_delegations", "mode_variant", "mode_mixin", "mode_method", "fnext_sites", "dep_programs", "keyed_group_programs", "programs_registering_while_a_method_runs", "registrations_made_by_a_running_method",
+                   "fresh_call_delegations", "mode_variant", "mode_mixin", "mode_method", "fnext_sites", "programs_types_as_arguments", "fnext_delegations_with_class_argument", "dep_programs", "keyed_group_programs", "programs_registering_while_a_method_runs", "registrations_made_by_a_running_method",
                    "dep_rank_shared"]
 
 
@@ -37,7 +37,7 @@ def plan(tier):
     n = 8000 if tier == "quick" else 120000
     return {"cases": n, "params": {}, "timeout_s": 1200 if tier == "quick" else 7200,
             "min": {"calls": 20_000, "delegations": 10_000, "chains_len3": 1_000, "chains_end_amb": 100,
-                    "fresh_call_delegations": 200, "mode_variant": 50, "mode_mixin": 50, "mode_method": 50}}
+                    "fresh_call_delegations": 200, "fnext_delegations_with_class_argument": 300, "mode_variant": 50, "mode_mixin": 50, "mode_method": 50}}
 
 
 DEP_POOL = [["L", 0], ["L", 1], ["L", 2], ["L", 2, 3], ["L", 4], ["D", "int", "even"], ["D", "int", "ge3"],
@@ -77,7 +77,44 @@ def _gen_dep_case(rng):
             "callseed": rng.randrange(1 << 30)}
 
 
+def _gen_type_case(rng):
+    """classes passed as arguments to `type[K]` methods over a single-inheritance tree (for a class the applicable
+    methods form a chain, so the order is fixed by subtyping alone), next to `object`; the methods delegate with
+    call_next and with f.next, and are called on classes and on instances"""
+    n = rng.randint(3, 5)
+    hier = [{"name": "K0", "bases": []}] + [{"name": f"K{i}", "bases": [f"K{rng.randrange(i)}"]} for i in range(1, n)]
+    names = [h["name"] for h in hier]
+    npos = rng.choice([1, 1, 2])
+    second = rng.choice(["object", "int"])
+    methods = []
+    tys = [["Ty", nm] for nm in rng.sample(names, rng.randint(2, n))]
+    if rng.random() < 0.3:
+        tys.append(["Ty", "object"])
+    if rng.random() < 0.75:
+        tys.append("object")
+    rng.shuffle(tys)
+    for i, t in enumerate(tys):
+        pos = [{"n": "a0", "t": t}] + ([{"n": "a1", "t": second}] if npos == 2 else [])
+        if rng.random() < 0.3:
+            pos.reverse()
+            pos[0]["n"], pos[-1]["n"] = "a0", f"a{npos - 1}"
+        methods.append({"mid": i, "pos": pos, "kw": [], "prio": 0, "kind": rng.choice(["leaf", "next", "next", "fnext", "fnext"])})
+    calls = []
+    for v in [["c", nm] for nm in names] + [["c", "int"], ["c", "object"]] + [["i", nm] for nm in names[:2]]:
+        for m0 in methods[:2]:
+            args = [v if not isinstance(p["t"], str) or p["t"] == "object" and npos == 1 else ["v", 1] for p in m0["pos"]]
+            if npos == 2 and all(a == ["v", 1] for a in args):
+                args[0] = v
+            c = {"pos": args, "kw": {}, "alt": list(args)}
+            if c not in calls:
+                calls.append(c)
+    return {"hier": hier, "methods": methods, "npos": npos, "mode": "plain", "split": len(methods), "types_as_arguments": True,
+            "calls": calls, "callseed": rng.randrange(1 << 30)}
+
+
 def gen_case(rng, params, idx):
+    if idx % 12 == 7:
+        return _gen_type_case(rng)
     if rng.random() < 0.25:
         return _gen_dep_case(rng)
     mode = rng.choice(["plain", "plain", "plain", "variant", "mixin", "method"])
@@ -145,6 +182,8 @@ def check_case(spec, res):
     res.sample(spec, spec["mode"])
     res.count("fnext_sites", sum(1 for m in methods if m["kind"] in ("fnext", "fnextalt")))
     rng = random.Random(spec["callseed"])
+    if spec.get("types_as_arguments"):
+        res.count("programs_types_as_arguments")
     if spec.get("keyed"):
         res.count("keyed_group_programs")
     if spec.get("dep"):
@@ -191,6 +230,9 @@ def check_case(spec, res):
             res.nontrivial([pk, list(tup), call["alt"]])
         if exp[0] == "none" and entered:
             res.count("chains_end_none")
+        if spec.get("types_as_arguments") and len(entered) >= 2 and any(v[0] == "c" for v in tup):
+            res.count("fnext_delegations_with_class_argument",
+                      sum(1 for m_ in entered[:-1] if methods[m_]["kind"] == "fnext"))
         if _has_fresh(exp, methods, call, env):
             res.count("fresh_call_delegations")
         if obs != norm(exp):
